@@ -152,7 +152,7 @@ func (b *Box) CompactFamily(shardID models.ShardID, ts int64) (before, after int
 // ReopenEngine closes the engine (graceful shutdown: every memory database is flushed by Close) and opens it
 // again on the same directory with the same database and shards.
 func (b *Box) ReopenEngine() error {
-	b.Engine.Close()
+	b.Close() // also stops the worker pools of this database object (see Close)
 	nb, err := Open(b.Dir, b.DBName, b.Opt, b.ShardIDs)
 	if err != nil {
 		return err
